@@ -65,9 +65,14 @@ def bed_layout(rng, res, style=None, nmax=40):
         for _ in range(n):
             ln = rng.choice([0, 1, 2, 5, 10, 20, 33, res, 2 * res + 1])
             es.append((pos, pos + ln)); pos += rng.choice([0, 0, 1, 3, 9, res, res + 1])
+    if style == "zero" and rng.random() < 0.3:
+        es = [(a, a) for (a, _) in es]; style = "zeroonly"        # a chromosome without a single covered base
     es.sort(key=lambda e: e[0])
     top = max(e[1] for e in es)
     length = max(top, es[-1][0] + 1) + rng.choice([0, 0, 1, 100])
+    if top > es[-1][0] + 1 and rng.random() < 0.12:
+        # entries reaching past the chromosome end are accepted (only the start has to lie on the chromosome)
+        length = max(es[-1][0] + 1, top - rng.choice([1, 5, res])); style = style + "+pastend"
     return es, length, style
 
 def first_res(o):
